@@ -960,7 +960,8 @@ impl BufferParser for Parser {
                         self.state = EngineState::Default;
 
                         if let Some(number) = self.parsed_numbers.first() {
-                            for _ in 0..*number {
+                            // blanks inserted beyond the terminal width only push cells further out of view
+                            for _ in 0..(*number).min(buf.terminal_state.get_width()) {
                                 caret.ins(buf, current_layer);
                             }
                         } else {
@@ -1046,7 +1047,9 @@ impl BufferParser for Parser {
                                 ).into());
                             }
                             if let Some(number) = self.parsed_numbers.first() {
-                                for _ in 0..*number {
+                                // there is nothing left to delete after `line length` iterations
+                                let line_len = buf.layers[current_layer].lines.get(caret.pos.y as usize).map_or(0, |l| l.chars.len() as i32);
+                                for _ in 0..(*number).min(line_len) {
                                     caret.del(buf,current_layer);
                                 }
                             } else {
@@ -1070,7 +1073,8 @@ impl BufferParser for Parser {
                                 ).into());
                             }
                             if let Some(number) = self.parsed_numbers.first() {
-                                for _ in 0..*number {
+                                // after `height` inserted lines everything below the cursor has left the screen
+                                for _ in 0..(*number).min(buf.terminal_state.get_height()) {
                                     buf.insert_terminal_line(current_layer,caret.pos.y);
                                 }
                             } else {
